@@ -733,6 +733,33 @@ func runC17(c *Check, a *Analysis) {
 		if n == 0 {
 			c.Ob("R-RESET-MAX", sc.key(tu, "latency=clientLatency on !Alive"), tu.Pos(), false, "an unreachable target's latency is never reset to the maximum: least-time keeps picking it")
 		}
+		// every path through Update records a latency, and on the alive arms the new sample contributes
+		isLatStore := func(x ssa.Instruction) bool {
+			cc, ok := x.(*ssa.Call)
+			if !ok || calleeName(cc) != "sync/atomic.StoreInt64" {
+				return false
+			}
+			fr, _, ok := fieldOfAddr(cc.Call.Args[0])
+			return ok && fr.Field == "latency"
+		}
+		_, tr, okp := p.mustPass(tu, nil, isLatStore)
+		c.Ob("R-RESET-MAX", sc.key(tu, "every path stores a latency"), tu.Pos(), okp, ifs(!okp, "a path through target.Update records no latency ("+p.lineTrail(tr)+"): the least-time order never learns this sample"))
+		var sample ssa.Value
+		for _, prm := range tu.Params {
+			if prm.Name() == "new" || (sample == nil && prm.Type().String() == "int64") {
+				sample = prm
+			}
+		}
+		eachInstr(tu, func(in ssa.Instruction) {
+			if !isLatStore(in) || sample == nil {
+				return
+			}
+			if g, _ := p.guardedBy(in, aliveFalse); g {
+				return
+			}
+			has := dependsOn(in.(*ssa.Call).Call.Args[1], sample, 12)
+			c.Ob("R-RESET-MAX", sc.key(tu, "alive arm records the sample"), p.InstrPos(in), has, ifs(!has, "the latency stored for a reachable target does not depend on the measured sample"))
+		})
 	}
 }
 
@@ -1297,4 +1324,31 @@ func addressOnlyFromSchedule(p *Prog, fn *ssa.Function, depth int) bool {
 		}
 	})
 	return ok
+}
+
+// dependsOn: v is computed (through arithmetic, conversions and φ) from target.
+func dependsOn(v, target ssa.Value, depth int) bool {
+	if v == target {
+		return true
+	}
+	if depth == 0 {
+		return false
+	}
+	switch x := v.(type) {
+	case *ssa.BinOp:
+		return dependsOn(x.X, target, depth-1) || dependsOn(x.Y, target, depth-1)
+	case *ssa.Convert:
+		return dependsOn(x.X, target, depth-1)
+	case *ssa.ChangeType:
+		return dependsOn(x.X, target, depth-1)
+	case *ssa.UnOp:
+		return dependsOn(x.X, target, depth-1)
+	case *ssa.Phi:
+		for _, e := range x.Edges {
+			if dependsOn(e, target, depth-1) {
+				return true
+			}
+		}
+	}
+	return false
 }
